@@ -260,9 +260,10 @@ def alt_inputs(obj, back, text, opts, allow):
     import io
     ver = cid_of(obj).replace("custom/", "")[:3]
     out = []
-    for how in ("dict", "file", "bytes", "version", "interoperability", "object"):
+    for how in ("dict", "file", "bytes", "version", "interoperability", "object", "default-arguments"):
         try:
             kwv = {}
+            kwa = {"allow_custom": allow}
             if how == "dict":
                 src = json.loads(text)
             elif how == "file":
@@ -274,12 +275,17 @@ def alt_inputs(obj, back, text, opts, allow):
                 kwv = {"interoperability": True}
             elif how == "object":
                 src = back                  # a mapping that is already an object
+            elif how == "default-arguments":
+                if allow:
+                    continue
+                src = text                  # allow_custom=False is the default: not giving it changes nothing
+                kwa = {}
             else:
                 src = text
                 if ver not in ("2.0", "2.1"):
                     continue
                 kwv = {"version": ver}
-            b2 = stix2.parse(src, allow_custom=allow, **kwv)
+            b2 = stix2.parse(src, **dict(kwa, **kwv))
             same = type(b2) is type(back)
             eq = bool(b2 == back) and bool(back == b2) if same else False
             txt = (b2.serialize(**kw(opts)) == back.serialize(**kw(opts))) if same else False
@@ -306,6 +312,27 @@ def other_writers(obj, text, opts):
             out["str_same"] = str(obj) == text
         except Exception as e:  # noqa: BLE001
             out["str_err"] = type(e).__name__
+        # every option given with its default value, and positionally (serialize(pretty, include_optional_defaults))
+        try:
+            t2 = obj.serialize(pretty=False, include_optional_defaults=False, sort_keys=False, indent=None)
+            t3 = obj.serialize(False, False)
+            from stix2 import serialization as _ser
+            t4 = _ser.serialize(obj)            # the module-level entry point
+            if t4 != text:
+                t2 = t4
+            out["explicit_defaults_same"] = (t2 == text) and (t3 == text)
+            if not out["explicit_defaults_same"]:
+                out["explicit_defaults_text"] = (t2 if t2 != text else t3)[:300]
+        except Exception as e:  # noqa: BLE001
+            out["explicit_defaults_err"] = type(e).__name__ + ": " + str(e)[:160]
+    elif opts == {"pretty": True, "include_optional_defaults": True}:
+        try:
+            t3 = obj.serialize(True, True)
+            out["explicit_defaults_same"] = t3 == text
+            if not out["explicit_defaults_same"]:
+                out["explicit_defaults_text"] = t3[:300]
+        except Exception as e:  # noqa: BLE001
+            out["explicit_defaults_err"] = type(e).__name__ + ": " + str(e)[:160]
     return out
 
 
@@ -571,6 +598,8 @@ def judge(case, res):
             fail("fp_serialize-differs-from-serialize", o, ow)
         if "str_err" in ow or ow.get("str_same") is False:
             fail("str-differs-from-serialize", o, ow)
+        if "explicit_defaults_err" in ow or ow.get("explicit_defaults_same") is False:
+            fail("options-given-with-their-default-values-or-positionally-differ", o, ow)
     for dff in res.get("history", []):
         fails.append({"kind": "serialize-depends-on-earlier-calls", "opts": dff["opts"], "detail": dff})
     good = [o for o in obs if "value" in o]
